@@ -118,11 +118,11 @@ pub fn run_c20(cx: &Ctx) -> i32 {
     } else {
         Space::new().exh("core", space::fancy_grammar(space::core_atoms()), 4).ctxfill(3, 1, &|_| true)
     };
-    let cfg = RefCfg { check_span: false, check_groups: false, check_is_match: false, need_scoped: false, filter: None, shadow: true, alphabet: spaces::sigma4(), max_len: 3 , text_list: None, offset0_only: false, letter_names: false};
+    let cfg = RefCfg { check_span: false, check_groups: false, check_is_match: false, need_scoped: false, filter: None, shadow: true, alphabet: spaces::sigma4(), max_len: 3 , text_list: None, offset0_only: false, letter_names: false, casei: false};
     let mut t2 = refsweep::run(cx, &sp, &cfg);
     // ... and on long regular texts (long undo logs at the cut)
     let tall_space = Space::new().ctxfill(if cx.quick() { 1 } else { 2 }, 1, &|_| true);
-    let tall_cfg = RefCfg { text_list: Some(refsweep::tall_texts(if cx.quick() { 32 } else { 64 })), offset0_only: true, letter_names: false, ..RefCfg { check_span: false, check_groups: false, check_is_match: false, need_scoped: false, filter: None, shadow: true, alphabet: vec![], max_len: 0, text_list: None, offset0_only: false, letter_names: false } };
+    let tall_cfg = RefCfg { text_list: Some(refsweep::tall_texts(if cx.quick() { 32 } else { 64 })), offset0_only: true, letter_names: false, casei: false, ..RefCfg { check_span: false, check_groups: false, check_is_match: false, need_scoped: false, filter: None, shadow: true, alphabet: vec![], max_len: 0, text_list: None, offset0_only: false, letter_names: false, casei: false } };
     let t3 = refsweep::run(cx, &tall_space, &tall_cfg);
     t2.count("tall_sweep_monitored_runs", t3.evaluations);
     t2.merge(t3);
